@@ -8,7 +8,7 @@ variable {H : Type}
 
 /-! ### the specification: hashes computed from scratch -/
 section
-variable (hashFn : Data → List (Name × H) → H)
+variable (hashFn : Data → List (EntryV H) → H)
 
 /-- entries of the children in `l`, with hashes given by `fr` -/
 def freshEnt (fr : Id → H) (h : Heap H) (l : List (Name × Id)) : List (EntryV H) :=
@@ -20,7 +20,7 @@ def freshF : Nat → Heap H → Id → H
   | 0, h, n => hashFn (h.get n).data []
   | f + 1, h, n =>
     let es := freshEnt (freshF f h) h (h.get n).children
-    hashFn (h.get n).data ((if (h.get n).isDir then sortE es else es).map EntryV.kv)
+    hashFn (h.get n).data ((if (h.get n).isDir then sortE es else es))
 
 /-- **the from-scratch hash** of node `n` -/
 def fresh (h : Heap H) (n : Id) : H := freshF hashFn (topFuel h) h n
@@ -43,7 +43,7 @@ theorem Acyclic.of_same {h h' : Heap H} (s : SameStruct h h') (a : Acyclic h) : 
 theorem acyclic_empty : Acyclic (Heap.empty : Heap H) :=
   ⟨fun _ => 0, fun p c hc => by simp [kids, Heap.get_empty, Node.blank] at hc, fun _ => Nat.le_refl _⟩
 
-variable {hashFn : Data → List (Name × H) → H}
+variable {hashFn : Data → List (EntryV H) → H}
 
 theorem freshF_fuel (h : Heap H) (rank : Id → Nat) (rk : RankOK h rank) :
     ∀ (f1 f2 : Nat) (n : Id), rank n < f1 → rank n < f2 →
@@ -69,7 +69,7 @@ theorem freshF_fuel (h : Heap H) (rank : Id → Nat) (rk : RankOK h rank) :
 theorem fresh_eq (h : Heap H) (a : Acyclic h) (n : Id) :
     fresh hashFn h n = hashFn (h.get n).data
       ((if (h.get n).isDir then sortE (freshEnt (fresh hashFn h) h (h.get n).children)
-        else freshEnt (fresh hashFn h) h (h.get n).children).map EntryV.kv) := by
+        else freshEnt (fresh hashFn h) h (h.get n).children)) := by
   obtain ⟨rank, rk, hb⟩ := a
   have : freshEnt (freshF hashFn h.size h) h (h.get n).children =
       freshEnt (fresh hashFn h) h (h.get n).children := by
@@ -135,7 +135,7 @@ theorem dirEntries_eq_fresh (h : Heap H) (i : Inv hashFn h) (a : Acyclic h) (n :
 /-! ### what each operation must report -/
 
 /-- the outputs of the reading operations are the from-scratch values of the heap `h'` reached -/
-def OutOk (hashFn : Data → List (Name × H) → H) (h' : Heap H) : Op → Out H → Prop
+def OutOk (hashFn : Data → List (EntryV H) → H) (h' : Heap H) : Op → Out H → Prop
   | .readHash n, out => n < h'.size → out = .hash (fresh hashFn h' n)
   | .forceUpdate n, out => n < h'.size → out = .hash (fresh hashFn h' n)
   | .readEntries n, out => n < h'.size → (h'.get n).isDir = true →
@@ -146,14 +146,14 @@ def OutOk (hashFn : Data → List (Name × H) → H) (h' : Heap H) : Op → Out 
 
 /-- result of one step: invariant kept; unless the step is a collection, every node still marked
 collected kept its hash; reading operations return from-scratch values -/
-structure StepPost (hashFn : Data → List (Name × H) → H) (h : Heap H) (op : Op)
+structure StepPost (hashFn : Data → List (EntryV H) → H) (h : Heap H) (op : Op)
     (r : Heap H × Out H) : Prop where
   inv : Inv hashFn r.1
   coll : KInv h → (∀ n, op ≠ .collect n) → CollStable h r.1
   out : OutOk hashFn r.1 op r.2
 
 /-- structural operations and their error exits -/
-def PostIC (hashFn : Data → List (Name × H) → H) (h : Heap H) (r : Heap H × Out H) : Prop :=
+def PostIC (hashFn : Data → List (EntryV H) → H) (h : Heap H) (r : Heap H × Out H) : Prop :=
   Inv hashFn r.1 ∧ CollStable h r.1
 
 theorem PostIC.noop {h : Heap H} (i : Inv hashFn h) (o : Out H) : PostIC hashFn h (h, o) :=
